@@ -2,7 +2,7 @@
    collide (every theorem is for an ARBITRARY hash function [hash64]).
    Theorems only; each is closed by [exact] of a lemma proved elsewhere. *)
 From Coq Require Import List NArith ZArith Bool Permutation.
-From Stevia Require Import Base.Res Hash.Impl Hash.Spec Hash.ZSet Hash.Mem Hash.Inv Hash.Refine Hash.HashProps.
+From Stevia Require Import Base.Res Hash.Impl Hash.Spec Hash.ZSet Hash.Mem Hash.Inv Hash.Refine Hash.HashProps Hash.SpecLaws.
 Import ListNotations.
 Open Scope N_scope.
 
@@ -90,3 +90,42 @@ Proof.
     + vm_compute. reflexivity.
   - vm_compute. auto.
 Qed.
+
+(* the specification the refinement theorem refers to is itself a finite set: over a strictly sorted member list,
+   membership after an insertion or removal changes for the touched value only, inserting a member and removing a
+   non-member change nothing, the size moves by exactly one, the list stays strictly sorted *)
+Theorem C02_spec_is_a_set : forall m, ssorted m ->
+  (forall v, zs_mem m v = true <-> In v m) /\
+  (forall v, ssorted (zs_insert m v) /\ (forall x, In x (zs_insert m v) <-> x = v \/ In x m) /\
+     (zs_mem m v = true -> zs_insert m v = m) /\
+     (zs_mem m v = false -> length (zs_insert m v) = S (length m))) /\
+  (forall v, ssorted (zs_remove m v) /\ (forall x, In x (zs_remove m v) <-> In x m /\ x <> v) /\
+     (zs_mem m v = false -> zs_remove m v = m) /\
+     (zs_mem m v = true -> S (length (zs_remove m v)) = length m)).
+Proof. exact bounded_set_laws. Qed.
+Print Assumptions C02_spec_is_a_set.
+
+(* [zset_laws m] is literally the conclusion above *)
+Theorem C02_zset_laws_def : forall m, zset_laws m <->
+  (forall v, zs_mem m v = true <-> In v m) /\
+  (forall v, ssorted (zs_insert m v) /\ (forall x, In x (zs_insert m v) <-> x = v \/ In x m) /\
+     (zs_mem m v = true -> zs_insert m v = m) /\
+     (zs_mem m v = false -> length (zs_insert m v) = S (length m))) /\
+  (forall v, ssorted (zs_remove m v) /\ (forall x, In x (zs_remove m v) <-> In x m /\ x <> v) /\
+     (zs_mem m v = false -> zs_remove m v = m) /\
+     (zs_mem m v = true -> S (length (zs_remove m v)) = length m)).
+Proof. exact (fun m => conj (fun H => H) (fun H => H)). Qed.
+Print Assumptions C02_zset_laws_def.
+
+(* in every state satisfying the invariant (hence every reachable state, C02_init + C02_step) the members obey them,
+   for an arbitrary hash function *)
+Theorem C02_members_are_a_set : forall (hash64 : Z -> N) s, hinv hash64 s ->
+  ssorted (habs s) /\ zset_laws (habs s).
+Proof. exact hinv_set_laws. Qed.
+Print Assumptions C02_members_are_a_set.
+
+Example C02_zset_laws_example :
+  let m := [3; 5; 9]%Z in
+  ssorted m /\ zs_insert m 4%Z = [3; 4; 5; 9]%Z /\ zs_insert m 5%Z = m /\
+  zs_remove m 5%Z = [3; 9]%Z /\ zs_remove m 4%Z = m /\ zs_mem m 9%Z = true /\ zs_mem m 4%Z = false.
+Proof. exact zset_laws_example. Qed.
